@@ -164,10 +164,10 @@ def audit(prop, workdir, props=None):
     for p in props:
         ns = re.escape(prop_module(p)[1])
         mine = set(n for q, n in names if q == p)
-        for m in re.finditer(r"'%s\.([^']+)' depends on axioms: \[([^\]]*)\]" % ns, flat):
+        for m in re.finditer(r"'%s\.(\S+)' depends on axioms: \[([^\]]*)\]" % ns, flat):
             if m.group(1) in mine:
                 res[key(p, m.group(1))] = [a.strip() for a in m.group(2).split(',') if a.strip()]
-        for m in re.finditer(r"'%s\.([^']+)' does not depend on any axioms" % ns, flat):
+        for m in re.finditer(r"'%s\.(\S+)' does not depend on any axioms" % ns, flat):
             if m.group(1) in mine:
                 res[key(p, m.group(1))] = []
     return res, out, rc
